@@ -65,6 +65,39 @@ func verifControlFieldBadInf(boxes []geometry.AABB) func(vector3.Float64) float6
 
 func verifControlFieldFar() float64 { return -math.Inf(-1) }
 
+// must fire COMB-1: the fold stops as soon as the running value is negative
+func verifControlFieldBadEarlyExit(boxes []geometry.AABB) func(vector3.Float64) float64 {
+	elems := make([]trees.Element, len(boxes))
+	for i := range boxes {
+		elems[i] = trees.BoundingBoxElement(boxes[i])
+	}
+	tree := trees.NewOctree(elems)
+	return func(p vector3.Float64) float64 {
+		hits := tree.ElementsContainingPoint(p)
+		s := 1.
+		for i := 0; i < len(hits) && s >= 0; i++ {
+			s = math.Min(s, boxes[hits[i]].Size().X())
+		}
+		return s
+	}
+}
+
+// must fire DOM-1: the size is the signed difference of the two points
+func verifControlDomBad(a, b vector3.Float64, r float64) geometry.AABB {
+	box := geometry.NewAABB(a.Midpoint(b), b.Sub(a))
+	box.Expand(r * 2)
+	return box
+}
+
+// must stay silent: Abs of the difference, expanded; and the box of the points expanded by 2.5 radii
+func verifControlDomGood(a, b vector3.Float64, r float64) (geometry.AABB, geometry.AABB) {
+	box := geometry.NewAABB(a.Midpoint(b), b.Sub(a).Abs().Add(vector3.Fill(r*2)))
+	pts := geometry.NewAABBFromPoints(a, b)
+	margin := 2.5 * r
+	pts.Expand(margin)
+	return box, pts
+}
+
 // must stay silent: element id subscripts, other idioms than the repository (indexed build from a
 // range copy, range over the hits, hoisted id, helper taking table and id, pre-filtered local slice)
 func verifControlFieldGood(boxes []geometry.AABB) func(vector3.Float64) float64 {
@@ -83,13 +116,13 @@ func verifControlFieldGood(boxes []geometry.AABB) func(vector3.Float64) float64 
 		picked := make([]geometry.AABB, 0, len(hits))
 		for _, h := range hits {
 			picked = append(picked, boxes[h])
-			s += verifControlFieldSize(boxes, h)
+			s = math.Min(s, verifControlFieldSize(boxes, h))
 		}
 		for i := 1; i < len(picked); i++ {
-			s += picked[i].Size().Y()
+			s = math.Min(s, picked[i].Size().Y())
 		}
 		for i := 0; i < len(boxes); i++ {
-			s += boxes[i].Size().Z()
+			s = math.Min(s, boxes[i].Size().Z())
 		}
 		return s
 	}
@@ -108,7 +141,7 @@ func verifControlFieldBadCounter(boxes []geometry.AABB) func(vector3.Float64) fl
 		hits := tree.ElementsContainingPoint(p)
 		s := 0.
 		for i := range hits {
-			s += boxes[i].Size().X()
+			s = math.Min(s, boxes[i].Size().X())
 		}
 		return s
 	}
@@ -124,7 +157,7 @@ func verifControlFieldBadOffset(boxes []geometry.AABB) func(vector3.Float64) flo
 	return func(p vector3.Float64) float64 {
 		s := 0.
 		for _, h := range tree.ElementsContainingPoint(p) {
-			s += boxes[h+1].Size().X()
+			s = math.Min(s, boxes[h+1].Size().X())
 		}
 		return s
 	}
@@ -140,7 +173,7 @@ func verifControlFieldBadBuild(boxes []geometry.AABB) func(vector3.Float64) floa
 	return func(p vector3.Float64) float64 {
 		s := 0.
 		for _, h := range tree.ElementsContainingPoint(p) {
-			s += boxes[h].Size().X()
+			s = math.Min(s, boxes[h].Size().X())
 		}
 		return s
 	}
@@ -160,7 +193,7 @@ func verifControlFieldBadCapture(groups [][]geometry.AABB) []func(vector3.Float6
 		out = append(out, func(p vector3.Float64) float64 {
 			s := 0.
 			for _, h := range tree.ElementsContainingPoint(p) {
-				s += boxes[h].Size().X()
+				s = math.Min(s, boxes[h].Size().X())
 			}
 			return s
 		})
@@ -280,6 +313,7 @@ func fieldIdxRules(c *props.Ctx, sp *ssa.Package, belowIsInside bool) {
 		c.R.Floor("FIELD-IDX", 4)
 		c.R.Floor("FIELD-ALL", 2)
 		c.R.Floor("FIELD-OUT", 3)
+		c.R.Floor("COMB-1", 2)
 	}
 }
 
@@ -714,6 +748,7 @@ func (x *fi) analyseQuery(g *ssa.Function, q *ssa.Call) {
 	st.scan(g, nil, 0)
 	if !single && st.judged > 0 {
 		st.coverage()
+		st.fold()
 	}
 	if st.judged > 0 {
 		x.outsideValues(g, st)
@@ -1726,6 +1761,7 @@ func (x *fi) controls() {
 		{"verifControlFieldBadBuild", "FIELD-IDX", true},
 		{"verifControlFieldBadCapture", "FIELD-CAP", true},
 		{"verifControlFieldBadInf", "FIELD-OUT", true},
+		{"verifControlFieldBadEarlyExit", "COMB-1", true},
 	} {
 		fs := x.ctl[w.name]
 		fired, holds := 0, 0
@@ -1784,7 +1820,7 @@ func (s *fiScan) resultLow(v ssa.Value) (int64, bool) {
 
 // counterRange: phi takes the values lo, lo+1, … while phi < len(result)+hiOff (positions of the result).
 func (s *fiScan) counterRange(phi *ssa.Phi) (lo, hiOff int64, ok bool) {
-	if len(phi.Edges) != 2 {
+	if len(phi.Edges) < 2 {
 		return
 	}
 	var init ssa.Value
@@ -1792,9 +1828,15 @@ func (s *fiScan) counterRange(phi *ssa.Phi) (lo, hiOff int64, ok bool) {
 	for _, e := range phi.Edges {
 		if b, isB := e.(*ssa.BinOp); isB && b.Op == token.ADD && b.X == ssa.Value(phi) {
 			if k, isK := ssau.ConstInt(b.Y); isK && k == 1 {
+				if step != nil && step != b {
+					return // two different increments
+				}
 				step = b
 				continue
 			}
+		}
+		if init != nil {
+			return
 		}
 		init = e
 	}
@@ -2204,4 +2246,357 @@ func (s *fiScan) foldIdentity(phi *ssa.Phi) int {
 		}
 	}
 	return -1
+}
+
+// ---------------------------------------------------------------------------
+// COMB-1: the fold over the members that contain the point
+
+// fold: every loop of the querying function that walks the hit list, or that carries a float accumulator, leaves
+// only through its counter test, and the accumulator is folded with min (max when inside is above the threshold).
+func (s *fiScan) fold() {
+	x := s.x
+	g := s.g
+	n := 0
+	for _, l := range ssau.Loops(g) {
+		walksHits := false
+		for b := range l.Blocks {
+			for _, in := range b.Instrs {
+				if ia, ok := in.(*ssa.IndexAddr); ok && s.isResult(ia.X) {
+					walksHits = true
+				}
+			}
+		}
+		var accs []*ssa.Phi
+		for _, in := range l.Header.Instrs {
+			phi, ok := in.(*ssa.Phi)
+			if !ok {
+				break
+			}
+			if bt, ok := phi.Type().Underlying().(*types.Basic); ok && bt.Info()&types.IsFloat != 0 {
+				accs = append(accs, phi)
+			}
+		}
+		if !walksHits && len(accs) == 0 {
+			continue
+		}
+		n++
+		f := fiFinding{rule: "COMB-1", construct: fmt.Sprintf("%s→fold#%d", x.c.P.FuncName(g), n), pos: l.Header.Instrs[0].Pos()}
+		for _, in := range l.Header.Instrs {
+			if in.Pos().IsValid() {
+				f.pos = in.Pos()
+				break
+			}
+		}
+		// exits
+		bad := ""
+		var badPos token.Pos
+		for _, b := range g.Blocks {
+			if !l.Blocks[b] {
+				continue
+			}
+			for _, w := range b.Succs {
+				if l.Blocks[w] {
+					continue
+				}
+				iff, _ := b.Instrs[len(b.Instrs)-1].(*ssa.If)
+				if iff != nil && counterTest(iff.Cond, l) {
+					continue
+				}
+				dep := ""
+				if iff != nil && dependsOn(iff.Cond, accs, 0) {
+					dep = " that depends on the running value"
+				}
+				bad = "the loop has an exit" + dep + " besides its counter test"
+				if iff != nil {
+					badPos = iff.Cond.Pos()
+					if in, ok := iff.Cond.(ssa.Instruction); ok {
+						badPos = in.Pos()
+					}
+				}
+			}
+		}
+		// accumulators
+		op := "min"
+		if !x.belowIsInside {
+			op = "max"
+		}
+		und := ""
+		var facts []string
+		for _, acc := range accs {
+			// `if x < acc { acc = x }` whose merge block was threaded into the header: two back edges, one
+			// carrying x from the taken side and one carrying acc from the comparing block
+			if got := splitCompareAssign(acc, l); got != "" {
+				if got == op {
+					facts = append(facts, fmt.Sprintf("%s = %s(%s, member value) on every iteration (compare and assign)", accName(acc), op, accName(acc)))
+				} else if bad == "" {
+					bad = fmt.Sprintf("the members are folded with %s; a union of fields whose inside lies %s the threshold is their %s", got, map[bool]string{true: "below", false: "above"}[x.belowIsInside], op)
+					badPos = acc.Pos()
+				}
+				continue
+			}
+			for i, pr := range l.Header.Preds {
+				if !l.Blocks[pr] {
+					continue
+				}
+				got := foldOp(acc.Edges[i], acc)
+				switch got {
+				case op:
+					facts = append(facts, fmt.Sprintf("%s = %s(%s, member value) on every iteration", accName(acc), op, accName(acc)))
+				case "min", "max":
+					if bad == "" {
+						bad = fmt.Sprintf("the members are folded with %s; a union of fields whose inside lies %s the threshold is their %s", got, map[bool]string{true: "below", false: "above"}[x.belowIsInside], op)
+						badPos = acc.Pos()
+					}
+				case "same":
+					if bad == "" {
+						bad = "an iteration can leave the running value untouched (a member containing the point is skipped)"
+						badPos = acc.Pos()
+					}
+				default:
+					und = "the running value is not updated by min / max of itself and a member value"
+				}
+			}
+		}
+		switch {
+		case bad != "":
+			f.verdict = ob.Violation
+			if badPos.IsValid() {
+				f.pos = badPos
+			}
+			f.msg = bad + ": the combined field is the fold over ALL members whose domain contains the point; stopping or skipping once the value has some sign keeps the sign but not the magnitude, so inside overlaps the surface for any threshold other than 0 is wrong"
+		case und != "":
+			f.verdict = ob.Undecided
+			f.msg = und
+		default:
+			f.verdict = ob.Holds
+			sort.Strings(facts)
+			f.facts = append([]string{"the loop leaves only through its counter test"}, uniqStrings(facts)...)
+		}
+		x.rec(g, f)
+	}
+}
+
+func uniqStrings(in []string) []string {
+	var out []string
+	for i, v := range in {
+		if i == 0 || v != in[i-1] {
+			out = append(out, v)
+		}
+	}
+	return out
+}
+
+func accName(p *ssa.Phi) string {
+	if p.Comment != "" {
+		return p.Comment
+	}
+	return p.Name()
+}
+
+// counterTest: cond compares an integer that is a loop counter of l (a header phi, plus a constant) with an integer.
+func counterTest(cond ssa.Value, l *ssau.Loop) bool {
+	b, ok := cond.(*ssa.BinOp)
+	if !ok {
+		return false
+	}
+	switch b.Op {
+	case token.LSS, token.LEQ, token.GTR, token.GEQ, token.NEQ:
+	default:
+		return false
+	}
+	for _, side := range []ssa.Value{b.X, b.Y} {
+		if !fiIsInteger(side.Type()) {
+			return false
+		}
+	}
+	for _, side := range []ssa.Value{b.X, b.Y} {
+		root, _ := fiPeel(side)
+		if phi, ok := root.(*ssa.Phi); ok && phi.Block() == l.Header {
+			return true
+		}
+	}
+	return false
+}
+
+func dependsOn(v ssa.Value, accs []*ssa.Phi, depth int) bool {
+	if depth > 6 || v == nil {
+		return false
+	}
+	for _, a := range accs {
+		if v == ssa.Value(a) {
+			return true
+		}
+	}
+	in, ok := v.(ssa.Instruction)
+	if !ok {
+		return false
+	}
+	if _, isPhi := v.(*ssa.Phi); isPhi && depth > 0 {
+		return false
+	}
+	for _, op := range in.Operands(nil) {
+		if op != nil && dependsOn(*op, accs, depth+1) {
+			return true
+		}
+	}
+	return false
+}
+
+// foldOp: how the back-edge value v updates the accumulator acc: "min" / "max" (math.Min/Max, builtin, or
+// `if x < acc { acc = x }`), "same" (unchanged), "" (something else).
+func foldOp(v ssa.Value, acc *ssa.Phi) string {
+	if v == ssa.Value(acc) {
+		return "same"
+	}
+	switch t := v.(type) {
+	case *ssa.Call:
+		name := ssau.Builtin(t)
+		if o := ssau.CalleeObj(t); o != nil && o.Pkg() != nil && o.Pkg().Path() == "math" {
+			name = strings.ToLower(o.Name())
+		}
+		if name != "min" && name != "max" {
+			return ""
+		}
+		for _, a := range t.Call.Args {
+			if a == ssa.Value(acc) {
+				return name
+			}
+		}
+		return ""
+	case *ssa.Phi:
+		// merge of `acc` and `x` under a comparison of the two
+		if len(t.Edges) != 2 || t.Block() == acc.Block() {
+			return ""
+		}
+		var xv ssa.Value
+		xi := -1
+		for i, e := range t.Edges {
+			if e != ssa.Value(acc) {
+				if xv != nil {
+					return ""
+				}
+				xv, xi = e, i
+			}
+		}
+		if xv == nil {
+			return "same"
+		}
+		other := t.Edges[1-xi]
+		if other != ssa.Value(acc) {
+			return ""
+		}
+		// the branch: the immediate dominator of the merge block ends in `if x OP acc`
+		idom := t.Block().Idom()
+		if idom == nil {
+			return ""
+		}
+		iff, ok := idom.Instrs[len(idom.Instrs)-1].(*ssa.If)
+		if !ok {
+			return ""
+		}
+		cmp, ok := iff.Cond.(*ssa.BinOp)
+		if !ok {
+			return ""
+		}
+		opx := cmp.Op
+		switch {
+		case cmp.X == xv && cmp.Y == ssa.Value(acc):
+		case cmp.Y == xv && cmp.X == ssa.Value(acc):
+			switch opx {
+			case token.LSS:
+				opx = token.GTR
+			case token.LEQ:
+				opx = token.GEQ
+			case token.GTR:
+				opx = token.LSS
+			case token.GEQ:
+				opx = token.LEQ
+			}
+		default:
+			return ""
+		}
+		// is x taken on the true side?
+		pred := t.Block().Preds[xi]
+		onTrue := pred != idom && (pred == idom.Succs[0] || idom.Succs[0].Dominates(pred))
+		if pred == idom {
+			onTrue = idom.Succs[0] == t.Block()
+		}
+		less := opx == token.LSS || opx == token.LEQ
+		greater := opx == token.GTR || opx == token.GEQ
+		if !less && !greater {
+			return ""
+		}
+		if less == onTrue {
+			return "min"
+		}
+		return "max"
+	}
+	return ""
+}
+
+// splitCompareAssign: acc has exactly two back edges: acc itself from a block ending in `if x OP acc` (its
+// not-taken side) and x from the taken side. Returns "min" / "max", or "".
+func splitCompareAssign(acc *ssa.Phi, l *ssau.Loop) string {
+	hdr := acc.Block()
+	var same, other *ssa.BasicBlock
+	var xv ssa.Value
+	n := 0
+	for i, pr := range hdr.Preds {
+		if !l.Blocks[pr] {
+			continue
+		}
+		n++
+		if acc.Edges[i] == ssa.Value(acc) {
+			same = pr
+		} else {
+			other, xv = pr, acc.Edges[i]
+		}
+	}
+	if n != 2 || same == nil || other == nil {
+		return ""
+	}
+	iff, ok := same.Instrs[len(same.Instrs)-1].(*ssa.If)
+	if !ok {
+		return ""
+	}
+	cmp, ok := iff.Cond.(*ssa.BinOp)
+	if !ok {
+		return ""
+	}
+	opx := cmp.Op
+	switch {
+	case cmp.X == xv && cmp.Y == ssa.Value(acc):
+	case cmp.Y == xv && cmp.X == ssa.Value(acc):
+		switch opx {
+		case token.LSS:
+			opx = token.GTR
+		case token.LEQ:
+			opx = token.GEQ
+		case token.GTR:
+			opx = token.LSS
+		case token.GEQ:
+			opx = token.LEQ
+		}
+	default:
+		return ""
+	}
+	// the edge same→header is one branch of the If, the x edge comes from the other branch
+	var takenOnTrue bool
+	switch {
+	case same.Succs[1] == hdr && (other == same.Succs[0] || same.Succs[0].Dominates(other)):
+		takenOnTrue = true
+	case same.Succs[0] == hdr && (other == same.Succs[1] || same.Succs[1].Dominates(other)):
+		takenOnTrue = false
+	default:
+		return ""
+	}
+	less := opx == token.LSS || opx == token.LEQ
+	greater := opx == token.GTR || opx == token.GEQ
+	if !less && !greater {
+		return ""
+	}
+	if less == takenOnTrue {
+		return "min"
+	}
+	return "max"
 }
